@@ -115,14 +115,21 @@ def public_surface():
     import cubed.random
 
     names = set()
+    import types
+
+    def is_function(o):
+        # functions only: dtype objects and classes are callable but construct no arrays
+        return isinstance(o, (types.FunctionType, types.BuiltinFunctionType)) or (callable(o) and not isinstance(o, type) and not hasattr(o, "itemsize"))
+
     for n in cubed.__all__:
-        if callable(getattr(cubed, n, None)):
+        if is_function(getattr(cubed, n, None)):
             names.add(n)
     for n in xp.__all__:
-        if callable(getattr(xp, n, None)):
+        if is_function(getattr(xp, n, None)):
             names.add(n)
     for n in dir(xp.linalg):
-        if not n.startswith("_") and callable(getattr(xp.linalg, n)) and getattr(getattr(xp.linalg, n), "__module__", "").startswith("cubed.array_api.linalg"):
+        o = getattr(xp.linalg, n)
+        if not n.startswith("_") and isinstance(o, types.FunctionType) and o.__module__.startswith("cubed.array_api.linalg"):
             names.add("linalg." + n)
     for n in ("random", "integers"):
         names.add("random." + n)
@@ -132,7 +139,8 @@ def public_surface():
 # recipe op -> public name(s) it exercises
 OP_PUBLIC = {
     "leaf": ["asarray", "from_array", "from_zarr"], "pick": [], "T": [], "index": [], "matrix_transpose": ["matrix_transpose"],
-    "outer": ["linalg.outer"], "qr": ["linalg.qr"], "svd": ["linalg.svd"], "svdvals": ["linalg.svdvals"],
+    "outer": ["linalg.outer"], "qr": ["linalg.qr", "linalg.tsqr", "linalg.map_blocks_multiple_outputs"],
+    "svd": ["linalg.svd", "linalg.tsqr", "linalg.map_blocks_multiple_outputs"], "svdvals": ["linalg.svdvals"],
     "map_overlap_sum3": ["map_overlap"], "gufunc_mean_last": ["apply_gufunc"], "gufunc_outer_add": ["apply_gufunc"],
     "random": ["random.random"], "create:arange": ["arange"], "create:linspace": ["linspace"], "create:eye": ["eye"],
     "create:full": ["full"], "create:ones": ["ones"], "create:zeros": ["zeros"],
@@ -183,6 +191,7 @@ def direct_calls(spec, workdir):
         ("nanmedian", lambda: cubed.nanmedian(b, axis=0), False),
         ("take(list)", lambda: xp.take(v, xp.asarray([0, 2], spec=spec)) if False else v[[0, 2]], False),
         ("plan", lambda: cubed.plan(b, xp.sum(b)), False),
+        ("plan-of-irregular-rechunk", lambda: irregular_rechunk_plans(workdir), False),
         ("visualize", lambda: cubed.visualize(b, xp.sum(b), filename=os.path.join(workdir, "viz", "direct")), False),
         # documented triggers
         ("compute", lambda: cubed.compute(xp.sum(b)), True),
@@ -199,6 +208,33 @@ def direct_calls(spec, workdir):
         ("take-with-cubed-array", lambda: xp.take(v, xp.asarray([0, 2], spec=spec)), True),
     ]
     return calls
+
+
+def irregular_rechunk_plans(workdir):
+    """Rechunks whose copy stages use rectilinear (irregular) intermediate/target grids: build, plan,
+    visualize. Asserts that such a grid really is in the plan, so the path is known to be reached."""
+    import cubed
+    import cubed.array_api as xp
+    from cubed.storage.zarr import LazyZarrArray
+
+    n_irregular = 0
+    for (shape, sc, tc, am) in [((20, 25), (13, 23), (1, 20), 12000), ((32, 35), (2, 18), (8, 15), 8000),
+                                ((30, 41), (14, 4), (4, 10), 5000), ((58, 21), (13, 6), (46, 4), 12000)]:
+        spec = cubed.Spec(work_dir=os.path.join(workdir, "irr"), allowed_mem=am)
+        a = xp.asarray(np.arange(shape[0] * shape[1], dtype="f8").reshape(shape), chunks=sc, spec=spec)
+        b = a.rechunk(tc) + 1
+        for og in (False, True):
+            fp = b.plan(optimize_graph=og)
+            n_irregular += sum(
+                1 for _, d in fp.dag.nodes(data=True)
+                if isinstance(d.get("target"), LazyZarrArray) and len(d["target"].chunks) > 0 and not isinstance(d["target"].chunks[0], int)
+            )
+            _ = (fp.num_tasks, fp.total_nchunks, fp.total_nbytes_written)
+        os.makedirs(os.path.join(workdir, "viz"), exist_ok=True)
+        b.visualize(filename=os.path.join(workdir, "viz", "irr"), optimize_graph=False, show_hidden=True)
+    if n_irregular == 0:
+        raise RuntimeError("no rectilinear intermediate grid was produced: path not reached")
+    return n_irregular
 
 
 def inspect_array(o, workdir, k):
@@ -244,7 +280,8 @@ def run_shard(spec, workdir):
             res["sets"]["public_exercised"].extend(OP_PUBLIC.get(o, [o]))
         wd = os.path.join(workdir, f"r{k}")
         os.makedirs(wd, exist_ok=True)
-        cspec = runner.make_spec(wd)
+        tight = "rechunk" in ops and rng.random() < 0.6
+        cspec = runner.make_spec(wd, allowed_mem=rng.choice([3000, 5000, 8000, 20000])) if tight else runner.make_spec(wd)
         env = gen.BuildEnv(cspec, wd)
         has_take = "take" in ops
         case = {"recipe": recipe}
